@@ -50,7 +50,9 @@ POINTS_PER_FILE = {"quick": 10, "thorough": 40}
 def cases(tier, seed):
     i = 0
     while True:
-        yield {"seed": f"{seed}/C01/{i}", "pseed": seed * 1000003 + i}
+        # every second project is generated with a distinct spelling per binding: none of the
+        # spelling-clash classes applies there, so those requests are judged with fine keys
+        yield {"seed": f"{seed}/C01/{i}", "pseed": seed * 1000003 + i, "unique": i % 2}
         i += 1
 
 
@@ -100,6 +102,7 @@ def project_facts(files):
     class_body_loads, init_params, leafs = set(), set(), {}
     class_members, base_names = {}, set()
     ambiguous_members = set()
+    bare_genexp_targets = set()
     for path in files:
         if path.endswith(".py") and not path.endswith("__init__.py"):
             leafs.setdefault(path.split("/")[-1], []).append(path)
@@ -177,6 +180,10 @@ def project_facts(files):
                 fstring_names |= {t.attr for t in ast.walk(n) if isinstance(t, ast.Attribute)}
             if isinstance(n, ast.comprehension):
                 comp_targets |= {t.id for t in ast.walk(n.target) if isinstance(t, ast.Name)}
+            if (isinstance(n, ast.Call) and len(n.args) == 1 and not n.keywords and isinstance(n.args[0], ast.GeneratorExp)
+                    and (n.args[0].end_lineno, n.args[0].end_col_offset) == (n.end_lineno, n.end_col_offset)):
+                # f(x for x in xs): the call's parentheses are the generator's own
+                bare_genexp_targets |= {t.id for g in n.args[0].generators for t in ast.walk(g.target) if isinstance(t, ast.Name)}
             if isinstance(n, ast.Import):
                 for a in n.names:
                     if a.asname:
@@ -212,7 +219,7 @@ def project_facts(files):
             "nonproject_imports": nonproject_imports, "star": star, "class_body_loads": class_body_loads,
             "init_params": init_params, "same_leaf": same_leaf, "has_prefixed_string": has_prefixed_string,
             "inherited_members": {m for c, ms in class_members.items() if c in base_names for m in ms},
-            "ambiguous_members": ambiguous_members}
+            "ambiguous_members": ambiguous_members, "bare_genexp_targets": bare_genexp_targets}
 
 
 def stream(text):
@@ -268,7 +275,7 @@ def run_case(spec):
     tier = os.environ.get("VERIF_TIER", "quick")
     with core.Scratch() as tmp:
         case = behave.Case(spec["pseed"], "binding", tmp + "/p", p_fstring=0.05, p_star_import=0.03, p_kwonly=0.1,
-                           p_varargs=0.1, p_kwargs=0.05)
+                           p_varargs=0.1, p_kwargs=0.05, p_dunder_call=0.3, unique_names=spec.get("unique", 0))
         if not case.valid:
             res.ev("discarded_invalid_projects")
             res.outcome("discarded")
@@ -341,7 +348,24 @@ def run_case(spec):
 
             import builtins
             label = None
-            if tok and hasattr(builtins, old):
+            unique = bool(spec.get("unique"))
+            if unique:
+                # spellings are unique, so these classes are about the renamed binding itself
+                if tok and hasattr(builtins, old):
+                    label = "builtin-name"
+                elif tok and old.startswith("__") and old.endswith("__"):
+                    label = "dunder-name"
+                elif tok and (old not in facts["defined"] or old in facts["nonproject_imports"]):
+                    label = "name-not-defined-in-project"
+                elif facts["star"]:
+                    label = "project-has-star-import"
+                elif facts["same_leaf"]:
+                    label = "two-project-modules-share-their-file-name"
+                elif role == "alias" or (tok and old in facts["module_alias"].get(path, ())):
+                    label = "import-alias"
+                elif tok and old in facts["bare_genexp_targets"]:
+                    label = "variable-of-a-generator-expression-that-is-the-sole-unparenthesised-argument-of-a-call"
+            elif tok and hasattr(builtins, old):
                 label = "builtin-name"
             elif tok and old.startswith("__") and old.endswith("__"):
                 label = "dunder-name"
@@ -373,13 +397,13 @@ def run_case(spec):
                 label = "default-argument-spelled-like-inner-binding"
             elif tok and old in facts["modlevel_comp"]:
                 label = "module-level-comprehension-variable-spelled-like-global"
-            feats = f"hostile:{label}" if label else f"core|role={role}"
+            feats = f"hostile:{label}" if label else (f"unique-names|role={role}" if unique else f"core|role={role}")
             out = behave.judge(case, request, res, "rename", feats, coarse=bool(label), post_check=post,
                                detail={"file": path, "offset": offset, "old": old, "role": role, "pseed": spec["pseed"],
                                        "source": case.files[path][:3000]})
             if out in ("preserved", "violation"):
                 res.ev("performed_and_run")
-                res.ev("performed_core" if not label else "performed_hostile")
+                res.ev("performed_hostile" if label else ("performed_unique_names" if unique else "performed_core"))
                 res.shape([role, out])
             elif out == "refused":
                 res.ev("refused")
